@@ -299,6 +299,9 @@ pub fn eval_case(ops: &[Op], drv: Option<&mut Drv>, pools: &[Pool], rng: &mut Rn
                 let got = *fcount.get(t).unwrap_or(&0);
                 if got != *w {
                     out.impl_v.push(("C04".into(), format!("mode {}: system {} ran {} times, expected {}", mode, t, got, w)));
+                    if res.is_ok() && built.infos.get(t).map(|i| i.is_tl).unwrap_or(false) {
+                        out.impl_v.push(("C12".into(), format!("mode {}: thread-local system {} ran {} times in one dispatch, expected {}", mode, t, got, w)));
+                    }
                 }
                 let runs = shared.behav[*t].runs.load(SeqCst);
                 if runs != *w {
@@ -485,24 +488,34 @@ pub fn run(args: &Args, rep: &mut Report) {
         }
         let kf1 = Op::has_tl_in_batch(&ops, false);
         for (p, what) in &o.impl_v {
-            let p = if p == "KF1" { "C12".to_string() } else { p.clone() };
-            let k = format!("impl:{}:{}", p, kf1);
+            let is_thread = p == "KF1";
+            let p = if is_thread { "C12".to_string() } else { p.clone() };
+            // which manifestation of the open finding KF1 (if any) this is: a thread-local system of
+            // a batch on a worker thread, or its undeclared access overlapping / colliding with an
+            // outer system. Anything else on such an input is reported as an ordinary violation.
+            let overlap = what.contains("inside its window") || what.contains("conflicting windows") || what.contains("borrow-conflict") || what.contains("already");
+            let kind = if is_thread { "thread" } else if overlap { "overlap" } else { "other" };
+            let k = format!("impl:{}:{}:{}", p, kf1, kind);
             if reported.insert(k) {
                 let pp = p.clone();
                 let small = shrink(&ops, &mut |c: &[Op]| {
                     (0..2).any(|j| {
                         let mut r = Rng::new(seed ^ 0x7ace, stream + j);
                         let o2 = eval_case(c, None, &pools, &mut r, &cfg);
-                        o2.impl_v.iter().any(|(q, _)| *q == pp || (pp == "C12" && q == "KF1"))
+                        o2.impl_v.iter().any(|(q, w2)| {
+                            let ov2 = w2.contains("inside its window") || w2.contains("conflicting windows") || w2.contains("borrow-conflict") || w2.contains("already");
+                            (*q == pp && !is_thread && ov2 == overlap) || (is_thread && q == "KF1")
+                        })
                     })
                 });
-                let cls = if Op::has_tl_in_batch(&small, false) { "kf1" } else { "" };
-                rep.violate(&p, "impl", cls, format!("{} [{}; layout {}]", what, label, o.layout), case_lines(&small));
+                let cls = if Op::has_tl_in_batch(&small, false) && kind != "other" { format!("kf1:{}", kind) } else { String::new() };
+                rep.violate(&p, "impl", &cls, format!("{} [{}; layout {}]", what, label, o.layout), case_lines(&small));
             }
         }
         for (aspect, what) in &o.model_v {
-            if reported.insert(format!("model:{}", aspect)) {
-                rep.violate(&format!("MODEL:{}", aspect), "model", if kf1 { "kf1" } else { "" }, format!("{} [{}; layout {}]", what, label, o.layout), case_lines(&ops));
+            if reported.insert(format!("model:{}:{}", aspect, kf1)) {
+                let cls = if kf1 && matches!(aspect.as_str(), "trace" | "effects" | "thread") { "kf1:model" } else { "" };
+                rep.violate(&format!("MODEL:{}", aspect), "model", cls, format!("{} [{}; layout {}]", what, label, o.layout), case_lines(&ops));
             }
         }
     }
